@@ -20,7 +20,7 @@ def run_record(rec):
         tb = traceback.extract_tb(e.__traceback__)
         where = "%s:%d" % (tb[-1].filename, tb[-1].lineno) if tb else "?"
         return "exception %s: %s (at %s)" % (type(e).__name__, e, where)
-    if r is None or r is True:
+    if r is None or r is True or r == "~":
         return ""
     return str(r)
 
